@@ -125,6 +125,28 @@ def run(ctx):
     if cases is None:
         ctx.evidence(dict(evaluations=0, distinct_nontrivial=0, rule="harness did not run", samples=[]))
         return
+    probes = [c for c in cases if c.get("kind") == "cosmos-recovery-probe"]
+    cases = [c for c in cases if c.get("kind") != "cosmos-recovery-probe"]
+    probe = (probes[0].get("observed") or {}) if probes else None
+    if probe is not None:
+        # the REAL cosmosdb.Vault must implement storage.Recovery: coercion.New's type assertion decides, at run
+        # time, whether the search entries are repaired before the engine searches for Running plans
+        ctx.oblige("*cosmosdb.Vault implements storage.Recovery (run-time type assertion on the real type)", bool(probe.get("implements_recovery")))
+        if not probe.get("implements_recovery"):
+            ctx.violation(dict(
+                kind="vault-lost-its-recovery-interface", monitor_false=True, failure_class="vault-lost-its-recovery-interface",
+                why="`_, ok := any(vault).(storage.Recovery)` is false for %s: coercion.New then skips the Vault's Recovery() silently, the search "
+                    "entries a crash left behind are never repaired, and a finished plan whose search entry still says Running is a candidate of "
+                    "start-up recovery (model: open_workstream with implements = false keeps v_stale; c11_storage_recovery_first needs implements = true; "
+                    "example c11_ex_unrepaired_index_refutes)" % probe.get("vault_type"),
+                probe=probe, input=dict(probe="cosmosdb.NewFakeVaultOpts(reg, \"swarm\", 0); any(v).(storage.Recovery)"),
+                replay_cmd="./check C11   (the probe runs on every invocation)"))
+        elif probe.get("stopped_at") == "complete" and not probe.get("search_entry_repaired"):
+            ctx.violation(dict(
+                kind="vault-recovery-does-not-repair", monitor_false=True, failure_class="vault-recovery-does-not-repair",
+                why="plan item %s, search entry still Running; Search(Running) lists the plan; after Recovery() the search entry is still %s"
+                    % (probe.get("plan_item_status"), probe.get("search_entry_status_after_recovery")), probe=probe,
+                input=dict(probe="cosmosdb fake: UpdatePlan with the search-partition write failing, then Recovery()")))
     if recorded is not None:
         cases = [recorded] + cases
     good = [c for c in cases if c.get("coq")]
@@ -248,6 +270,7 @@ def run(ctx):
         traces_validated_against_impl=len(good),
         stores=len(cases), stores_observed=len(good), stores_lost=[dict(id=c["id"], note=c.get("note", "")[:400]) for c in lost][:10],
         inconclusive_boundary=len(inconclusive),
+        cosmosdb_recovery_probe=probe,
         crash_during_close=dict(
             cases=len(crash_cases), stores=len({c["input"]["index"] for c in crash_cases}),
             what="a stale Running plan is closed by an incarnation that dies after the j-th Update* of start-up recovery, for every j of the close; "
@@ -296,5 +319,6 @@ def run(ctx):
         "the harness's abstraction of plans to Coq terms (ids interned per store), its own walk-order traversal, the logging/limiting vault wrappers",
         "storage.Recovery contract: 30% of the stores are opened through a Vault wrapper that implements storage.Recovery and whose Search(Running) lists one or two durably terminal plans as Running until Recovery() has been called (a search index that lags the plan rows after a crash, as cosmosdb's can); observed: Recovery() is called before the first Search/Read/Update*, and the listed plan is neither executed nor written (theorem c11_storage_recovery_first; the real cosmosdb Recovery is not exercised here)",
         "crash during the close: the first incarnation is cut off by a vault wrapper that drops every Update* after the j-th (what the store sees of a process that died there); the order of the Update* calls of every close is compared with the model's write list (plan row first; theorem c11_close_is_crash_safe)",
+        "the real *cosmosdb.Vault is asked at run time whether it implements storage.Recovery (violation kind vault-lost-its-recovery-interface); the behavioural part of that probe crafts 'plan item terminal, search entry Running' through the package's fake and calls Recovery(), but with the present verif hooks it stops there: the fake Vault does not wire the unexported recovery{reader, updater} field (Recovery() panics on the fake) and the fake answers a status-only Search with an empty result - see coverage.cosmosdb_recovery_probe.stopped_at",
         "lastUpdate counts the start/end of every object and of every attempt of every action (since fix d8f84b2, R4); the 'attempt-recent' cases (all states far older than maxAge, one attempt 1 ms old) must be resumed",
     ])
